@@ -23,7 +23,11 @@ def generate(r):
         if i > 0 and r.random() < 0.3:
             parent = r.choice([m for m in mods if m.count(".") < 2] or [None])
             if parent:
-                mods.append("%s.n%d" % (parent, i))
+                # leaf names are sometimes shared between packages (pkg1.util, pkg2.util are different modules)
+                leaf = r.choice(["n%d" % i, "util", "core"])
+                if "%s.%s" % (parent, leaf) in mods:
+                    leaf = "n%d" % i
+                mods.append("%s.%s" % (parent, leaf))
                 continue
         mods.append("m%d" % i)
     ident = {m: m.replace(".", "_") for m in mods}
@@ -68,7 +72,13 @@ def generate(r):
     main = ["print('#main');"]
     expect = ["#main"]
     if with_fiber:
-        main += ["let tick = chan(3);", "fn ticker(ch) { for i in 3.times() { ch <- i; } }", "launch ticker(tick);"]
+        # the ticker first rendezvouses `pace` times with a pacer fiber, so it completes at a seeded point relative to the
+        # module bodies that run (and possibly block) during the imports
+        pace = r.randint(0, 6)
+        main += ["let tick = chan(3);", "let pace = chan();",
+                 "fn pacer(p) { let v = <- p; while v != nil { v = <- p; } }",
+                 "fn ticker(ch, p, k) { for i in k.times() { p <- i; } p.close(); for i in 3.times() { ch <- i; } }",
+                 "launch pacer(pace);", "launch ticker(tick, pace, %d);" % pace]
     ran = []
     counters = collections.Counter()
     fiber_lines = {}
